@@ -297,6 +297,51 @@ func ruleS3(c *Ctx, id string) {
 		}
 	}
 	R.Check(dec, id, "nfs.doRemove|parent link dropped with the sub-directory", P.Pos(doRemove.Pos()), "removing a directory decrements the parent's Nlink in the same transaction", "decrement present", "RMDIR never gives back the link MKDIR added: a directory that ever had a sub-directory is never freed (inode and blocks leaked)")
+	// ... and on every path on which the object unlinked is a directory (whichever procedure asked)
+	if doDec := P.Func("nfs.(*Nfs).doDecLink"); dec && doDec != nil {
+		for _, call := range P.CallsIn(doRemove, funcIs(doDec)) {
+			obj := stripConv(argN(call, 1))
+			notDir := condEdge(doRemove, func(cd Cond) (bool, bool) {
+				n, fl, base, _ := loadedField(cd.X)
+				k, isk := constInt(cd.Y)
+				if n == V.Inode && fl == "Kind" && base == obj && isk && k == 2 {
+					if cd.Op == token.EQL {
+						return true, false
+					}
+					if cd.Op == token.NEQ {
+						return true, true
+					}
+				}
+				return false, false
+			})
+			var cuts []func(from, to *ssa.BasicBlock) bool
+			cuts = append(cuts, notDir)
+			for _, w := range writes {
+				if w.fn != doRemove || w.delta != -1 {
+					continue
+				}
+				wb := w.in.Block()
+				parent := w.base
+				cuts = append(cuts, func(from, to *ssa.BasicBlock) bool { return to == wb })
+				// the defensive floor: never drop the parent's own link
+				cuts = append(cuts, condEdge(doRemove, func(cd Cond) (bool, bool) {
+					n, fl, base, _ := loadedField(cd.X)
+					k, isk := constInt(cd.Y)
+					if n != V.Inode || fl != "Nlink" || base != parent || !isk || k != 1 {
+						return false, false
+					}
+					switch cd.Op {
+					case token.GTR:
+						return true, false
+					case token.LEQ:
+						return true, true
+					}
+					return false, false
+				}))
+			}
+			R.Check(everyPathTakes(doRemove, call.Block(), cuts...), id, "nfs.doRemove|parent link dropped whenever the object is a directory", P.Pos(call.Pos()), "every path to the unlink of the object passes the parent's decrement, or 'object is not a directory', or the floor test on the parent's count", "no path avoids all three", "a directory can be removed (e.g. through REMOVE rather than RMDIR) without giving back the parent's link for its '..': the parent is never freed")
+		}
+	}
 	// RENAME replacing a directory / moving a directory between parents
 	decRen, incRen := false, false
 	for _, w := range writes {
